@@ -178,6 +178,9 @@ func NewComponents(spec openapi3.Components, opts SchemaOptions) (zero Component
 	}
 
 	cs.Links, err = NewMapRefSelf[Link, *openapi3.LinkRef](spec.Links, func(lr *openapi3.LinkRef) (ref string, _ Ref[Link], _ error) {
+		if lr == nil {
+			return "", nil, fmt.Errorf("link is not defined")
+		}
 		if lr.Ref != "" {
 			return lr.Ref, nil, nil
 		}
